@@ -680,6 +680,9 @@ def run(ctx: Ctx):
     out.append(rule_first_terminator(ctx))
     out.append(rule_drain_eof(ctx))
     out.append(rule_digits_only(ctx))
+    from ..rules import nameprefix
+
+    out.append(nameprefix.run_nameprefix(ctx.p, "C05.14", ("urwid.display", "urwid.util", "urwid.event_loop.main_loop"), floor=3))
     return out
 
 
@@ -688,6 +691,7 @@ from ..mutants import Mut  # noqa: E402
 _E = "urwid/display/escape.py"
 _R = "urwid/display/_raw_display_base.py"
 MUTANTS = [
+    Mut("meta-fold-test-as-prefix", _E, "process_keyqueue", 'run[0].find("meta ") >= 0', 'run[0].startswith("meta ")', "SIB|display.escape.process_keyqueue|'meta' tested as a prefix"),
     Mut("sgr-mouse-fields-straight-to-int", "urwid/display/escape.py", "KeyqueueTrie.read_sgrmouse_info", "        if not all(field.isascii() and field.isdigit() for field in fields):\n            # int() would also take signs, blanks and underscores: not a known sequence\n            return None\n", "", "TAINT|display.escape.KeyqueueTrie.read_sgrmouse_info|terminal text to int() without digit test"),
     Mut("sgr-mouse-fields-isdigit-only", "urwid/display/escape.py", "KeyqueueTrie.read_sgrmouse_info", "field.isascii() and field.isdigit()", "field.isdigit()", "TAINT|display.escape.KeyqueueTrie.read_sgrmouse_info|terminal text to int() without digit test"),
     Mut("sync-completion-single-retry", "urwid/display/_raw_display_base.py", "urwid.display._raw_display_base.Screen.get_input", "        while self._partial_codes:", "        if self._partial_codes:", "PASS|display._raw_display_base.Screen.get_input|get_input: partial sequence not re-tested after a parse"),
